@@ -603,6 +603,12 @@ impl RawAutomaton {
     /// initial state of the subsequent one. Removes some dead states when
     /// these final states have no successors.
     pub(super) fn concat(automata: &[Self]) -> Self {
+        // If one component accepts nothing, so does the concatenation. Returning the empty
+        // automaton directly preserves the invariant that no dead state is ever produced
+        // (the states of the other components could not reach a final state anymore).
+        if automata.iter().any(|a| a.final_states.is_empty()) {
+            return RawAutomaton::empty();
+        }
         let mut concat_automaton = RawAutomaton::epsilon();
         // A storage for dead states to be eliminated during post-processing. Dead
         // states are generated:
